@@ -5,4 +5,7 @@ PROPS = {
     "C01": dict(pkg="./props/c01", level="exploration",
                 quick=dict(shards=12, checks=1200, timeout=300),
                 thorough=dict(shards=16, checks=960, timeout=1500)),
+    "C03": dict(pkg="./props/c03", level="exploration",
+                quick=dict(shards=12, checks=9600, timeout=300),
+                thorough=dict(shards=16, checks=40000, timeout=1500)),
 }
